@@ -13,12 +13,21 @@ def decoder_options(rng):
 
 
 def run_decoder(chunks, max_payload, return_bytes=True, return_offset=True, use_callback=False, as_ints=False, typed_callbacks=None,
-                form='bytes', opts=None):
+                form='bytes', opts=None, late=None, check_arg=False):
     """Returns (per-call canonical strings, flat list of result dicts, error or None).
     as_ints: single-byte chunks are passed as `int` (the documented alternative input form).
     typed_callbacks: dict type -> list, filled by callbacks registered for that specific message type.
     form: how a chunk is handed over: 'bytes'; 'ba_wipe' = a fresh bytearray that the caller zeroes and empties right after
-    the call; 'ba_reuse' = one receive bytearray refilled in place for every call (the decoder must have copied what it keeps)."""
+    the call; 'ba_reuse' = one receive bytearray refilled in place for every call (the decoder must have copied what it keeps);
+    'bytearray' = a fresh bytearray per call that the caller keeps; 'ba_clear_extend' = one receive bytearray, clear() + extend()
+    before every call (a socket read loop); 'memoryview' / 'mv_bytearray' = a view of a bytes / bytearray object, released after
+    the call; 'mv_recv_into' = one fixed-size receive bytearray, the first n bytes overwritten and passed as memoryview(rx)[:n].
+    check_arg: what was passed must be unchanged after the call, and every object the caller kept must still be unchanged after
+    all calls (error text 'ArgumentModified: ...').
+    late: callbacks registered while the decoder is in use: a list of dicts {'at': ['call', i] (before the i-th on_data call;
+    i == len(chunks): after the last) or ['msg', n] (from inside a callback, while the n-th accepted message is delivered),
+    'type': message type number or None}; each gets 'sink' (list of the argument tuples received) and 'n0' (number of messages
+    delivered before the registration)."""
     from fusion_engine_client.parsers.decoder import FusionEngineDecoder
     from fusion_engine_client.messages import MessageHeader
     import logging
@@ -48,7 +57,30 @@ def run_decoder(chunks, max_payload, return_bytes=True, return_offset=True, use_
     calls = []
     flat = []
     rx = bytearray()
-    for ch in chunks:
+
+    def register(L, n0):
+        from fusion_engine_client.messages import MessageType
+        L['sink'] = []
+        L['n0'] = n0
+        t = L.get('type')
+        dec.add_callback(None if t is None else MessageType(t, raise_on_unrecognized=False),
+                         (lambda s: (lambda *a: s.append(a)))(L['sink']))
+
+    delivered = {'n': 0}
+    if late and any(L['at'][0] == 'msg' for L in late):
+        def counter(*a):
+            n = delivered['n']
+            delivered['n'] = n + 1
+            for L in late:
+                if L['at'][0] == 'msg' and L['at'][1] == n and 'sink' not in L:
+                    register(L, n)
+        dec.add_callback(None, counter)
+    kept = []           # (object the caller still holds, what it held when it was passed)
+    fixed = bytearray(max([len(c) for c in chunks] + [1]) + 3) if form == 'mv_recv_into' else None
+    for ci, ch in enumerate(chunks):
+        for L in late or []:
+            if L['at'][0] == 'call' and L['at'][1] == ci and 'sink' not in L:
+                register(L, len(flat))
         try:
             if as_ints and len(ch) == 1:
                 arg = ch[0]
@@ -57,16 +89,40 @@ def run_decoder(chunks, max_payload, return_bytes=True, return_offset=True, use_
             elif form == 'ba_reuse':
                 rx[:] = ch
                 arg = rx
+            elif form == 'bytearray':
+                arg = bytearray(ch)
+                kept.append((arg, bytes(ch)))
+            elif form == 'ba_clear_extend':
+                rx.clear()
+                rx.extend(ch)
+                arg = rx
+            elif form == 'memoryview':
+                arg = memoryview(bytes(ch))
+            elif form == 'mv_bytearray':
+                held = bytearray(ch)
+                kept.append((held, bytes(ch)))
+                arg = memoryview(held)
+            elif form == 'mv_recv_into':
+                fixed[:len(ch)] = ch
+                arg = memoryview(fixed)[:len(ch)]
             else:
                 arg = bytes(ch)
             res = dec.on_data(arg)
+            if check_arg and not (as_ints and len(ch) == 1):
+                now = bytes(fixed[:len(ch)]) if form == 'mv_recv_into' else bytes(arg)
+                if now != bytes(ch):
+                    return calls, flat, 'ArgumentModified: on_data() changed the %s the caller passed (form %s): %d bytes %s before ' \
+                                        'the call, %d bytes %s after' % (type(arg).__name__, form, len(ch), bytes(ch).hex()[:80],
+                                                                        len(now), now.hex()[:80]), cb
+            if isinstance(arg, memoryview):
+                arg.release()               # the caller's view ends with the call; the decoder must have copied what it keeps
             for k, o in enumerate(others):
                 o.on_data(b'\x2e\x31\x00' if k % 2 else b'\x07')
             if any(res is l for l in seen_lists) or any(r == ('caller-owned',) for r in res):
                 return calls, flat, 'SharedResult: on_data returned the very list object an earlier call returned (a caller ' \
                                     'extending its result in place changes what later calls return)', cb
             seen_lists.append(res)
-            if form == 'ba_wipe':
+            if form == 'ba_wipe' and isinstance(arg, bytearray):
                 for i in range(len(arg)):
                     arg[i] = 0x2e
                 del arg[:]
@@ -89,6 +145,18 @@ def run_decoder(chunks, max_payload, return_bytes=True, return_offset=True, use_
             res.append(('caller-owned',))        # the caller owns the returned list and may extend it
         calls.append('%s|%d|%d|%d' % (','.join(pairs), len(dec._buffer), 0 if dec._header is None else 1,
                                       dec._bytes_processed))
+        if check_arg:
+            for obj, was in kept:
+                if bytes(obj) != was:
+                    return calls, flat, 'ArgumentModified: a bytearray passed to an earlier on_data() call was changed by call %d ' \
+                                        '(form %s): %d bytes %s when passed, now %d bytes %s' % (
+                                            ci, form, len(was), was.hex()[:80], len(obj), bytes(obj).hex()[:80]), cb
+    for L in late or []:
+        if 'sink' not in L:
+            if L['at'][0] == 'call':
+                register(L, len(flat))          # after the last call
+            else:
+                L['sink'], L['n0'] = None, None  # fewer messages than that were delivered: never registered
     return calls, flat, None, cb
 
 
